@@ -6,7 +6,7 @@ HERE = os.path.dirname(os.path.abspath(__file__))
 CLAIMED = {
  'C14': dict(
    category='fault_enumeration',
-   text='Real host + real helper process under a pipe proxy that kills the helper at a chosen request index and protocol phase (before send, after send, reply truncated at 3 cut points, death by BaseException in the handler), idle kills, sequences of up to three deaths incl. death of the replacement during its handshake, seeded GC schedule and clock advances across the 10-minute environment cache. Thorough enumerates every (request, phase-variant) single-fault point of every generated scenario; multi-fault, idle and lifecycle (up to 200 Scripts) plans are seeded search. Judge = executable model of Script-to-helper-generation binding + undisturbed reference run + OS census (zombies, pipe fds, threads) + helper-side state table read through the pipe. Extensions: per-helper-generation model (only Scripts bound to a dead generation may fail; binding a new Script to a helper known to be dead is a violation), two environments alive side by side, a fresh Project per Script so that the simulated clock expires the 10-minute default-environment cache (predecessor helpers must be reaped when unreferenced), gc_now entries that run the collector at a chosen request INSIDE _send (GC schedule at request granularity), flood_then_die (1500 stderr lines, then death in flight), idle kills biased to just before a batch of discarded Scripts is finalised; a subject stopped by its watchdog is a hang (re-run once with a generous limit before it is reported). Scenarios may contain a project module named numpy/pandas/matplotlib/tensorflow (process-wide completion cache keyed by module name); lifecycle runs contain a burst phase (12-20 used Scripts alive at once, dropped together, one collector run, census); flood_then_die also in a binary variant (non-UTF-8 bytes on the helper's stderr before it dies in flight). The pipe proxy is protocol-agnostic: a flush forwards one message, the next complete reply is pulled when jedi reads.',
+   text='Real host + real helper process under a pipe proxy that kills the helper at a chosen request index and protocol phase (before send, after send, reply truncated at 3 cut points, death by BaseException in the handler), idle kills, sequences of up to three deaths incl. death of the replacement during its handshake, seeded GC schedule and clock advances across the 10-minute environment cache. Thorough enumerates every (request, phase-variant) single-fault point of every generated scenario; multi-fault, idle and lifecycle (up to 200 Scripts) plans are seeded search. Judge = executable model of Script-to-helper-generation binding + undisturbed reference run + OS census (zombies, pipe fds, threads) + helper-side state table read through the pipe. Extensions: per-helper-generation model (only Scripts bound to a dead generation may fail; binding a new Script to a helper known to be dead is a violation), two environments alive side by side, a fresh Project per Script so that the simulated clock expires the 10-minute default-environment cache (predecessor helpers must be reaped when unreferenced), gc_now entries that run the collector at a chosen request INSIDE _send (GC schedule at request granularity), flood_then_die (1500 stderr lines, then death in flight), idle kills biased to just before a batch of discarded Scripts is finalised; a subject stopped by its watchdog is a hang (re-run once with a generous limit before it is reported). Scenarios may contain a project module named numpy/pandas/matplotlib/tensorflow (process-wide completion cache keyed by module name); lifecycle runs contain a burst phase (12-20 used Scripts alive at once, dropped together, one collector run, census); flood_then_die also in a binary variant (non-UTF-8 bytes on the stderr of the helper before it dies in flight). The pipe proxy is protocol-agnostic: a flush forwards one message, the next complete reply is pulled when jedi reads.',
    design_ref='DESIGN.md §3 C14',
    note='Helper-internal interleavings finer than a request are not scheduled (single-threaded strict request/reply listener). "At most one query" is read as at most one Script constructed after the death; Scripts bound to the dead helper may keep raising InternalError. A silent or hanging (alive but mute) helper is not injected. The stderr drain thread runs unscheduled.',
    technique='deterministic simulation with fault injection: seeded helper-death schedules through a pipe proxy, model-based judge, exhaustive single-fault sweep in thorough'),
@@ -30,7 +30,7 @@ CLAIMED = {
    technique='deterministic simulation: seeded file-system histories with simulator-assigned timestamps + host restarts on warm cache, pristine-process oracle, counterfactual replay'),
  'C12': dict(
    category='exploration',
-   text='Partial claim: the stateful, two-process content of the statement. Adversarial worlds in which every Python file writes a sentinel when executed (names: conftest, setup, sitecustomize, usercustomize, __main__, gi module/package = settings.auto_import_modules, manage, test_*, _json, math, *.pth, buildout script), project options default / explicit sys_path / added_sys_path / smart_sys_path off / buffer inserting the project into sys.path, subject cwd inside or outside the project. After EVERY op of a seeded session (queries of all kinds, Script.search, Project.search, rename refactorings incl. apply(), helper killed idle or mid-request, helper replies replaced by exceptions at get_module_info/load_module, host restart on the warm pickle cache) the invariants are evaluated: no sentinel; host sys.path/cwd/environ equal baseline and no world module in host sys.modules; helper sys.path/cwd equal their value at helper start (read through the pipe) and no world module in helper sys.modules. Also: sessions on InterpreterEnvironment (compiled analysis inside the host), optional \'\' entry on the host\'s sys.path, unresolvable imports in buffers, and the placement of the project relative to the environment\'s own sys.path (elsewhere / nested below an entry / sibling whose name starts with an entry). Shadow names: project files named like modules that machinery inside the helper imports lazily while looking a module up (setuptools / pkg_resources for the distutils shim on sys.meta_path; _codecs_kr, _multibytecodec, stringprep, quopri behind a PEP 263 cookie), with buffers importing distutils and cookie-declaring modules; the corner '' on the host's sys.path AND cwd inside the project is entered with adversarial names nothing in the host imports on its own.',
+   text='Partial claim: the stateful, two-process content of the statement. Adversarial worlds in which every Python file writes a sentinel when executed (names: conftest, setup, sitecustomize, usercustomize, __main__, gi module/package = settings.auto_import_modules, manage, test_*, _json, math, *.pth, buildout script), project options default / explicit sys_path / added_sys_path / smart_sys_path off / buffer inserting the project into sys.path, subject cwd inside or outside the project. After EVERY op of a seeded session (queries of all kinds, Script.search, Project.search, rename refactorings incl. apply(), helper killed idle or mid-request, helper replies replaced by exceptions at get_module_info/load_module, host restart on the warm pickle cache) the invariants are evaluated: no sentinel; host sys.path/cwd/environ equal baseline and no world module in host sys.modules; helper sys.path/cwd equal their value at helper start (read through the pipe) and no world module in helper sys.modules. Also: sessions on InterpreterEnvironment (compiled analysis inside the host), optional \'\' entry on the host\'s sys.path, unresolvable imports in buffers, and the placement of the project relative to the environment\'s own sys.path (elsewhere / nested below an entry / sibling whose name starts with an entry). Shadow names: project files named like modules that machinery inside the helper imports lazily while looking a module up (setuptools / pkg_resources for the distutils shim on sys.meta_path; _codecs_kr, _multibytecodec, stringprep, quopri behind a PEP 263 cookie), with buffers importing distutils and cookie-declaring modules; the corner (empty-string entry on the sys.path of the host AND cwd inside the project) is entered with adversarial names nothing in the host imports on its own.',
    design_ref='DESIGN.md §3 C12',
    note='Not decided: completeness over all project configurations and all routes to __import__ in code the sessions never drive (Interpreter; django/pytest plug-in paths needing those packages). load_unsafe_extensions stays False. Seeded sampling.',
    technique='deterministic simulation: adversarial side-effecting worlds, standing sentinel + host/helper state-conservation invariants after every op, with helper crashes / injected helper exceptions / host restarts'),
